@@ -72,6 +72,7 @@ inductive Obs where
   | nomatch          -- panic "there is no suitable condition matched…" (when.go:242 / mocker.go:147)
   | oob              -- index out of range inside Result()
   | orig             -- nothing is mocked: the original runs
+  | rejected         -- a configuration call panicked with *erro.ReturnsNotMatch and left the mocker as it was
   deriving Repr, DecidableEq
 
 /-- `AddResult` on matcher `i` (matcher.go:55) -/
@@ -167,11 +168,17 @@ inductive Op where
   deriving Repr
 
 /-- `baseMocker.when` is `none` until the first `When/Return/Returns` on the mocker.
-    Observation of configuration ops: `none`; a `w…` op without a `When` is not expressible in Go (skipped). -/
+    Observation of configuration ops: `none` (or `rejected`); a `w…` op without a `When` is not expressible in Go (skipped). -/
 def opStep (s : Option When) : Op → Option When × Option Obs
   | .mRet v => (some (match s with | some w => ret w v | none => createWhen none (some v)), none)       -- mocker.go:541-556
   | .mWhen c => (some (match s with | some w => whenOp w c | none => createWhen (some c) none), none)   -- mocker.go:521-538
-  | .mRets vs => (some (match s with | some w => rets w vs | none => rets (createWhen none none) vs), none) -- mocker.go:559-577
+  | .mRets vs =>                                                                                        -- mocker.go DefMocker.Returns
+    match s, vs with
+    | some w, _ => (some (rets w vs), none)                     -- `m.when != nil`: delegate
+    -- a FIRST `Returns()` without values is routed through `Return()` (`len(values) == 0` branch), whose CreateWhen/checkParams
+    -- rejects an empty value list for a target with results: panic before `m.whens`, so no `When` is stored and nothing is applied
+    | none, [] => (none, some .rejected)
+    | none, _ => (some (rets (createWhen none none) vs), none)  -- CreateWhen(nil, nil), `when.Returns(values...)`, then `m.whens`
   | .wRet v => (s.map (ret · v), none)
   | .wAnd v => (s.map (andRet · v), none)
   | .wRets vs => (s.map (rets · vs), none)
